@@ -71,14 +71,26 @@ impl Extension {
     pub(crate) fn validate_prototype(prototype: &[Record], extensions: &[Extension]) -> Result<()> {
         for record in prototype {
             if let RecordName::Unknown { namespace, name } = &record.name {
-                Self::validate_name(namespace)?;
-                Self::validate_name(name)?;
+                Self::validate_xml_name(namespace)?;
+                Self::validate_xml_name(name)?;
                 if !extensions.iter().any(|e| &e.namespace == namespace) {
                     Error::invalid(format!(
                         "Cannot find extension namespace {namespace} used by attribute {name}, please register extension first"
                     ))?
                 }
             }
+        }
+        Ok(())
+    }
+
+    /// Same as `validate_name()` but also ensures that the name can be used as XML name.
+    /// XML names (prefixes and tags) are not allowed to start with a digit or a dash.
+    pub(crate) fn validate_xml_name(name: &str) -> Result<()> {
+        Self::validate_name(name)?;
+        if name.starts_with(|c: char| c.is_ascii_digit() || c == '-') {
+            Error::invalid(format!(
+                "Strings used as XML namespaces or attributes must not start with a digit or a dash: '{name}'"
+            ))?
         }
         Ok(())
     }
